@@ -164,8 +164,9 @@ def pc_number(t):
     return ("int", v) if v < 1 << 64 else ("float",)
 
 
-STR_ALPHA = [b"\\", b"x", b"X", b"u", b"U", b"0", b"1", b"3", b"4", b"7", b"8", b"9", b"a", b"f", b"g", b"n", b"D", b"\"", b"'", b"\n", b"\x00",
-             b"\xc3\xa9", b"\xff", b"?", b" "]
+# every character class boundary of the escape scanner: octal 0 7 | 8, decimal 9 | : /, hex a f A F | g G ` @
+STR_ALPHA = [b"\\", b"x", b"X", b"u", b"U", b"0", b"1", b"3", b"4", b"7", b"8", b"9", b"a", b"f", b"g", b"A", b"F", b"G", b"/", b":", b"@", b"`",
+             b"n", b"D", b"\"", b"'", b"\n", b"\x00", b"\xc3\xa9", b"\xff", b"?", b" "]
 NUM_ALPHA = [b"0", b"1", b"7", b"8", b"9", b"x", b"X", b"e", b"E", b".", b"_", b"+", b"-", b"a", b"f"]
 
 
@@ -179,6 +180,28 @@ def run(ctx):
     corpus = [b"\"\\u00e9\"", b"'\\U0001F600'", b"\"\\ud83d\\ude00\"", b"\"\\ud800\"", b"\"\\U0000d800\"", b"\"\\U00110000\"", b"\"\\400\"", b"\"\\777\"",
               b"\"\\x-f\"", b"\"\\u-123\"", b"\"\\xfff\"", b"\"\\1234\"", b"\"\\x\xff\xff\"", b"'it''s'", b"\"\\X41\"", b"\"\\u00E9\\n\\t\\\\\""]
     strs += corpus
+    # every one- and two-character hex escape over the hex digits and their neighbours, every octal escape of 1..3 digits,
+    # a sample of unicode escapes with each hex digit in each position
+    HX = b"0123456789abcdefABCDEF/:@G`g"
+    for a in HX:
+        strs.append(b"\"\\x" + bytes([a]) + b"\"")
+        strs.append(b"\"\\X" + bytes([a]) + b"z\"")
+        for b_ in HX:
+            strs.append(b"\"\\x" + bytes([a, b_]) + b"\"")
+    for a in b"01234567":
+        strs.append(b"\"\\" + bytes([a]) + b"\"")
+        for b_ in b"012345678":
+            strs.append(b"\"\\" + bytes([a, b_]) + b"\"")
+            for c_ in b"012345678":
+                strs.append(b"\"\\" + bytes([a, b_, c_]) + b"9\"")
+    for pos in range(4):
+        for h in HX:
+            d = bytearray(b"0041"); d[pos] = h
+            strs.append(b"\"\\u" + bytes(d) + b"\"")
+    for pos in range(8):
+        for h in HX:
+            d = bytearray(b"0000004a"); d[pos] = h
+            strs.append(b"\"\\U" + bytes(d) + b"\"")
     for _ in range(ctx.budget(3000, 100000)):
         k = rng.range(1, 12)
         q = rng.choice([b"\"", b"'"])
